@@ -57,6 +57,7 @@ finally:
     shutil.rmtree(V+'/evidence', ignore_errors=True)
     shutil.move(V+'/.work/evidence.bak', V+'/evidence')
     for f in glob.glob(V+'/replays/*'): os.remove(f)
+    sh(V+'/.bin/vx extract')   # the regenerated tables come from the clean tree again
 with open(V+'/seeded/RESULTS.md','w') as f:
     f.write('| change | what it does | caught by `./check <id> quick` | how | failure keys / broken obligations |\n|---|---|---|---|---|\n')
     for key in sorted(results):
